@@ -33,8 +33,24 @@ class FakePool:
     def __exit__(self, *a):
         return False
 
-    def _rank(self, feature):
-        return self.schedule.index(feature) if feature in self.schedule else len(self.schedule)
+    @staticmethod
+    def _name(item):
+        """the feature a task is about: the name itself, a named column, or the first such thing in a tuple"""
+        if isinstance(item, str) or item is None:
+            return item
+        nm = getattr(item, 'name', None)
+        if isinstance(nm, str):
+            return nm
+        if isinstance(item, (tuple, list)):
+            for x in item:
+                k = FakePool._name(x)
+                if isinstance(k, str):
+                    return k
+        return None
+
+    def _rank(self, item):
+        feature = self._name(item)
+        return self.schedule.index(feature) if (feature is not None and feature in self.schedule) else len(self.schedule)
 
     @staticmethod
     def _isolate(obj):
